@@ -11,7 +11,7 @@ use vespertide_config::FileFormat;
 use vespertide_core::{MigrationAction, MigrationPlan, TableConstraint, TableDef};
 use vespertide_planner::{
     EnumFillWithRequired, find_missing_enum_fill_with, find_missing_fill_with, plan_next_migration,
-    schema_from_plans,
+    schema_from_plans, validate_migration_plan,
 };
 
 use crate::utils::{
@@ -456,6 +456,10 @@ pub async fn cmd_revision(message: String, fill_with_args: Vec<String>) -> Resul
     // (see find_missing_fill_with); record that default as the fill value so that existing
     // NULLs are backfilled and the written migration passes plan validation when loaded.
     apply_default_as_fill_with(&mut plan, &baseline_schema);
+
+    // Loading a migration validates it (load_migrations); refuse to write one that could not be
+    // read back, e.g. a --fill-with value that is not a label of the column's enum type.
+    validate_migration_plan(&plan).map_err(|e| anyhow::anyhow!("invalid migration plan: {}", e))?;
 
     plan.id = uuid::Uuid::new_v4().to_string();
     plan.comment = Some(message);
